@@ -78,13 +78,19 @@ constexpr int kMaxIds = 4096;
 // per-scenario bookkeeping; all updates happen while exactly one managed thread runs, and only through
 // opaque calls (std::vector / ghost counters), see dsched.h
 struct Book {
-  std::vector<int> ran, ended, setOf, fq, submitter, inCall, ranOnCaller, subAfterCancelRet;
-  std::vector<int> cancelRet;   // per set: cancel() has returned
-  std::vector<int> everCancelled;
-  std::vector<int> excThrown, excSeen, captures;  // per set
+  // tables live in the scheduler runtime's cell array (opaque accessors): see dsh::CellVec
+  dsh::CellVec ran, ended, setOf, fq, submitter, inCall, ranOnCaller, subAfterCancelRet;   // per task id
+  dsh::CellVec cancelRet;       // per set: cancel() has returned
+  dsh::CellVec everCancelled;
+  dsh::CellVec excThrown, excSeen, captures, parentOf;  // per set (parentOf: ParentCascadeCancel::kOn parent, 0 = none)
   int poolNeverZero = 1;
-  Book() : ran(kMaxIds), ended(kMaxIds), setOf(kMaxIds, -1), fq(kMaxIds), submitter(kMaxIds, -1), inCall(kMaxIds),
-           ranOnCaller(kMaxIds), subAfterCancelRet(kMaxIds), cancelRet(64), everCancelled(64), excThrown(64), excSeen(64), captures(64) {}
+  Book() {
+    int at = 0;
+    auto mk = [&](int n, int init = 0) { dsh::CellVec v(at, n, init); at += n; return v; };
+    ran = mk(kMaxIds); ended = mk(kMaxIds); setOf = mk(kMaxIds, -1); fq = mk(kMaxIds); submitter = mk(kMaxIds, -1);
+    inCall = mk(kMaxIds); ranOnCaller = mk(kMaxIds); subAfterCancelRet = mk(kMaxIds);
+    cancelRet = mk(64); everCancelled = mk(64); excThrown = mk(64); excSeen = mk(64); captures = mk(64); parentOf = mk(64);
+  }
 };
 void noteCapture(int set) { if (g_book && set < 64) g_book->captures[set]++; }
 int newId() { dsched::ghostAdd(9, 1); return (int)dsched::ghostGet(9); }
@@ -97,14 +103,29 @@ struct Scn {
 
 struct Actor;
 void runOps(Actor& a, int nOps, int depth);
+void chainStep(Actor& a, int left, int path);
 
 struct Actor {
   Scn* sc;
   vh::SplitMix rng;
   dispenso::ConcurrentTaskSet* shared;  // may be null
   int sharedId;
+  int curSet = 0;   // set of the task body this actor runs in (0: not inside a set task)
   Actor(Scn* s, uint64_t seed, dispenso::ConcurrentTaskSet* sh, int shId) : sc(s), rng(seed), shared(sh), sharedId(shId) {}
 };
+
+// the set, or one of its kOn ancestors, was cancelled by a cancel() call that has returned
+bool cancelledByReturnedCall(int set) {
+  Book& b = *g_book;
+  for (int s = set, n = 0; s > 0 && n < 8; s = b.parentOf[s], ++n) if (b.cancelRet[s]) return true;
+  return false;
+}
+// the set may have been cancelled by any means (own / ancestor cancel(), own / ancestor exception)
+bool mayBeCancelled(int set) {
+  Book& b = *g_book;
+  for (int s = set, n = 0; s > 0 && n < 8; s = b.parentOf[s], ++n) if (b.everCancelled[s] || b.excThrown[s]) return true;
+  return false;
+}
 
 // a task body: marks begin/end, optionally does nested work, optionally throws
 struct Body {
@@ -115,15 +136,39 @@ struct Body {
   int depth;
   bool thrower;
   uint64_t seed;
+  int chainLeft = 0;     // > 0: this body schedules the next link of a chain through chainPath
+  int chainPath = 0;     // 0 pool.schedule, 1 shared set schedule
+  bool selfCancel = false;
+  std::atomic<int>* hold = nullptr;   // filler: keeps running until *hold becomes non-zero
   void operator()() {
     Book& b = *g_book;
     dsched::note("begin %d", id);
     b.ran[id]++;
     if (b.inCall[id] && b.submitter[id] == dsched::tid()) b.ranOnCaller[id] = 1;
-    if (depth > 0) {
+    if (selfCancel) {
+      // a task may cancel the set it runs in (only meaningful when it runs inside its package wrapper)
+      dispenso::TaskSetBase* cur = dispenso::parentTaskSet();
+      int s = b.setOf[id];
+      if (cur && s > 0 && setId(cur) == s) {
+        dsched::note("call cancel %d", s);
+        b.everCancelled[s] = 1;
+        cur->cancel();
+        b.cancelRet[s] = 1;
+        dsched::note("ret cancel %d", s);
+      }
+    }
+    if (hold) {
+      while (!hold->load(std::memory_order_acquire)) std::this_thread::yield();
+    } else if (chainLeft > 0) {
       Actor me(sc, seed, shared, sharedId);
+      me.curSet = b.setOf[id] > 0 ? b.setOf[id] : 0;
+      chainStep(me, chainLeft - 1, chainPath);
+    } else if (depth > 0) {
+      Actor me(sc, seed, shared, sharedId);
+      me.curSet = b.setOf[id] > 0 ? b.setOf[id] : 0;
       runOps(me, 1 + (int)me.rng.below(2), depth - 1);
     }
+    dsched::ghostAdd(13, 1);
     b.ended[id] = 1;
     dsched::note("end %d", id);
     if (thrower) {
@@ -134,17 +179,20 @@ struct Body {
   }
 };
 
-Body mkBody(Actor& a, int set, bool fq, int depth) {
+Body mkBody(Actor& a, int set, bool fq, int depth, int afterCancel = -1) {
   Book& b = *g_book;
   int id = newId();
   b.setOf[id] = set;
   b.fq[id] = fq;
   b.submitter[id] = dsched::tid();
-  if (set > 0 && b.cancelRet[set]) b.subAfterCancelRet[id] = 1;
+  // afterCancel: whether a cancel() of the set (or a cascading ancestor) had returned when the *call* started
+  if (set > 0 && (afterCancel < 0 ? cancelledByReturnedCall(set) : afterCancel != 0)) b.subAfterCancelRet[id] = 1;
   bool thr = a.sc->throwing && set > 0 && a.rng.below(5) == 0;
   // only task-set tasks do nested work: they finish before their set's wait(), hence before the pool dies
   bool nest = set > 0 && depth > 0 && a.rng.below(3) == 0;
-  return Body{id, a.sc, a.shared, a.sharedId, nest ? depth : 0, thr, a.rng.next()};
+  Body body{id, a.sc, a.shared, a.sharedId, nest ? depth : 0, thr, a.rng.next()};
+  body.selfCancel = set > 0 && !thr && a.rng.below(14) == 0;
+  return body;
 }
 
 template <typename F>
@@ -175,9 +223,10 @@ template <typename Set>
 void bulkOn(Actor& a, Set& ts, int set, bool fq, int count, int depth) {
   Book& b = *g_book;
   std::vector<int> ids;
+  int afterCancel = set > 0 && cancelledByReturnedCall(set) ? 1 : 0;
   dsched::note("call bulk %d %d", set, fq ? 1 : 0);
   auto gen = [&](size_t) {
-    Body body = mkBody(a, set, fq, depth);
+    Body body = mkBody(a, set, fq, depth, afterCancel);
     b.inCall[body.id] = 1;
     ids.push_back(body.id);
     dsched::note("gen %d", body.id);
@@ -211,8 +260,9 @@ void waitOn(Set& ts, int set, const std::vector<int>& mine, bool viaTry, vh::Spl
       for (int id : mine) {
         if (b.setOf[id] == set && !b.ended[id] && b.ran[id])
           std::printf("PFAIL task-set wait returned while a task body was still running | set=%d id=%d\n", set, id);
-        if (b.setOf[id] == set && !b.ran[id] && !b.everCancelled[set] && !b.excThrown[set])
-          std::printf("PFAIL task-set wait returned before a scheduled task ran | set=%d id=%d\n", set, id);
+        if (b.setOf[id] == set && !b.ran[id] && !mayBeCancelled(set))
+          std::printf("PFAIL task-set wait returned before a scheduled task ran | set=%d id=%d parent=%d parent_cancelled=%d self_cancelled=%d at_event=%zu\n",
+                      set, id, (int)b.parentOf[set], b.parentOf[set] > 0 ? (int)b.everCancelled[b.parentOf[set]] : -1, (int)b.everCancelled[set], dsched::trace().size());
       }
     }
     dsched::note("ret wait %d %d %d", set, (done || exc) ? 1 : 0, exc ? 1 : 0);
@@ -234,11 +284,17 @@ void localTaskSet(Actor& a, int depth) {
   int mult = a.rng.below(3) == 0 ? 0 : (a.rng.below(2) ? 1 : 4);   // small load factors force the inline paths
   bool concurrentKind = a.rng.below(3) == 0;
   bool heavy = a.rng.below(2) == 0;
+  // inside a set task the new set may register with that task's set for cascading cancellation
+  bool cascade = a.curSet > 0 && a.rng.below(2) == 0;
+  auto pcc = cascade ? dispenso::ParentCascadeCancel::kOn : dispenso::ParentCascadeCancel::kOff;
   if (!concurrentKind) {
-    dispenso::TaskSet ts(*g_pool, (ssize_t)mult);
+    dispenso::TaskSet ts(*g_pool, pcc, (ssize_t)mult);
     dsched::noPreempt(true);
     int set = ++g_numSets;
     g_sets[set - 1] = static_cast<dispenso::TaskSetBase*>(&ts);
+    // the parent the library registered with (the set of the innermost *packaged* task on this thread, if any)
+    b.parentOf[set] = ts.parent_ ? setId(ts.parent_) : 0;
+    if (b.parentOf[set] == 63 || b.parentOf[set] == set) b.parentOf[set] = 0;
     dsched::noPreempt(false);
     int n = 1 + (int)a.rng.below(4);
     for (int i = 0; i < n; ++i) {
@@ -249,9 +305,9 @@ void localTaskSet(Actor& a, int depth) {
       else if (k < 7) bulkOn(a, ts, set, true, 1 + (int)a.rng.below(4), depth);
       else {
         dsched::note("call cancel %d", set);
+        b.everCancelled[set] = 1;   // "may be cancelled" from the moment cancel() is entered …
         ts.cancel();
-        b.everCancelled[set] = 1;
-        b.cancelRet[set] = 1;
+        b.cancelRet[set] = 1;       // … "cancel() has returned" only now
         dsched::note("ret cancel %d", set);
       }
     }
@@ -262,10 +318,14 @@ void localTaskSet(Actor& a, int depth) {
     try { ts.wait(); } catch (const std::runtime_error&) { exc = true; b.excSeen[set]++; }
     dsched::note("ret wait %d 1 %d", set, exc ? 1 : 0);
   } else {
-    dispenso::ConcurrentTaskSet ts(*g_pool, heavy ? dispenso::TaskCost::kHeavy : dispenso::TaskCost::kLightweight, (ssize_t)mult);
+    dispenso::ConcurrentTaskSet ts(*g_pool, pcc, (ssize_t)mult,
+                                   heavy ? dispenso::TaskCost::kHeavy : dispenso::TaskCost::kLightweight);
     dsched::noPreempt(true);
     int set = ++g_numSets;
     g_sets[set - 1] = static_cast<dispenso::TaskSetBase*>(&ts);
+    // the parent the library registered with (the set of the innermost *packaged* task on this thread, if any)
+    b.parentOf[set] = ts.parent_ ? setId(ts.parent_) : 0;
+    if (b.parentOf[set] == 63 || b.parentOf[set] == set) b.parentOf[set] = 0;
     dsched::noPreempt(false);
     int n = 1 + (int)a.rng.below(4);
     for (int i = 0; i < n; ++i) {
@@ -276,9 +336,9 @@ void localTaskSet(Actor& a, int depth) {
       else if (k < 7) bulkOn(a, ts, set, true, 1 + (int)a.rng.below(4), depth);
       else {
         dsched::note("call cancel %d", set);
+        b.everCancelled[set] = 1;   // "may be cancelled" from the moment cancel() is entered …
         ts.cancel();
-        b.everCancelled[set] = 1;
-        b.cancelRet[set] = 1;
+        b.cancelRet[set] = 1;       // … "cancel() has returned" only now
         dsched::note("ret cancel %d", set);
       }
     }
@@ -297,6 +357,27 @@ struct PoolApi {
   template <typename G> void scheduleBulk(size_t n, G&& g) { g_pool->scheduleBulk(n, std::forward<G>(g)); }
   template <typename G> void scheduleBulk(size_t n, G&& g, dispenso::ForceQueuingTag) { g_pool->scheduleBulk(n, std::forward<G>(g)); }
 };
+
+// one link of a chain: schedule the successor through the chosen path (the successor schedules its own successor …)
+void chainStep(Actor& a, int left, int path) {
+  PoolApi api;
+  Book& b = *g_book;
+  int set = path == 0 ? 0 : a.sharedId;
+  Body body = mkBody(a, set, false, 0);
+  body.thrower = false;
+  body.selfCancel = false;
+  body.chainLeft = left;
+  body.chainPath = path;
+  int id = body.id;
+  b.inCall[id] = 1;
+  dsched::note("call sched %d %d 0", set, id);
+  guardedCall([&] {
+    if (path == 0) api.schedule(std::move(body));
+    else a.shared->schedule(std::move(body));
+  });
+  b.inCall[id] = 0;
+  dsched::note("ret sched");
+}
 
 void runOps(Actor& a, int nOps, int depth) {
   PoolApi api;
@@ -338,8 +419,19 @@ int main(int argc, char** argv) {
     sc.throwing = rng.below(4) == 0;
     bool resizes = flavour == 2 || (flavour == 0 && rng.below(3) == 0);
     bool signaling = rng.below(4) != 0;
+    bool chain = flavour == 3;                 // overloaded pool + chains of tasks scheduling their successor
+    if (chain) {
+      sc.poolSize = 1 + (int)rng.below(2);
+      sc.loadMult = 1;
+      sc.producers = 0;
+      sc.throwing = false;
+      resizes = false;
+      signaling = true;
+    }
+    bool parkFirst = !chain && sc.poolSize > 0 && signaling && rng.below(3) == 0;   // workers asleep: proactive wake / steal rings
     std::string desc = "sched pool=" + std::to_string(sc.poolSize) + " load=" + std::to_string(sc.loadMult) +
-        " producers=" + std::to_string(sc.producers) + " resizes=" + std::to_string(resizes) + " throwing=" +
+        " producers=" + std::to_string(sc.producers) + " resizes=" + std::to_string(resizes) + " chain=" + std::to_string(chain) +
+        " park=" + std::to_string(parkFirst) + " throwing=" +
         std::to_string(sc.throwing) + " signaling=" + std::to_string(signaling) + " seed=" + std::to_string(o.seed);
     auto& c = dsh::stuckCtx();
     c.signature = resizes ? "pool / task-set operation never returns while the pool is being resized"
@@ -364,10 +456,41 @@ int main(int argc, char** argv) {
           dsched::note("ret resize");
         }
         {
+          if (parkFirst) {
+            for (int i = 0; i < 300; ++i) {
+              auto* ws = pool.wakeState_.load(std::memory_order_relaxed);
+              if (ws && ws->totalSleeping() == sc.poolSize) break;
+              std::this_thread::sleep_for(std::chrono::microseconds(100));
+            }
+          }
           dispenso::ConcurrentTaskSet shared(pool, rng.below(2) ? dispenso::TaskCost::kHeavy : dispenso::TaskCost::kLightweight,
-                                             (ssize_t)(rng.below(2) ? 4 : 1));
+                                             (ssize_t)(chain ? 0 : (rng.below(2) ? 4 : 1)));
           int sharedId = ++g_numSets;
           g_sets[sharedId - 1] = static_cast<dispenso::TaskSetBase*>(&shared);
+          std::atomic<int> release{0};
+          if (chain) {
+            // fillers keep the pool and the shared set over their load factors until the chain is done
+            PoolApi api;
+            Actor fa(&sc, rng.next(), &shared, sharedId);
+            auto filler = [&](int set) {
+              Body body = mkBody(fa, set, true, 0);
+              body.thrower = false; body.selfCancel = false; body.hold = &release;
+              int id = body.id;
+              dsched::note("call sched %d %d 1", set, id);
+              if (set == 0) api.schedule(std::move(body), dispenso::ForceQueuingTag());
+              else shared.schedule(std::move(body), dispenso::ForceQueuingTag());
+              dsched::note("ret sched");
+            };
+            for (int f = 0; f < 2 * sc.poolSize + 2; ++f) filler(0);
+            filler(sharedId);
+            int len = 36 + (int)fa.rng.below(30);
+            long before = dsched::ghostGet(13);
+            chainStep(fa, len - 1, (int)fa.rng.below(2));
+            // the inline part of the chain is over (a link was queued or the chain ended): let the fillers go
+            release.store(1, std::memory_order_release);
+            for (int spinN = 0; spinN < 200000 && dsched::ghostGet(13) - before < len + 2 * sc.poolSize + 3; ++spinN)
+              std::this_thread::sleep_for(std::chrono::microseconds(200));
+          }
           std::vector<std::thread> ths;
           std::vector<Actor*> actors;
           for (int p = 0; p < sc.producers; ++p) {
@@ -384,6 +507,13 @@ int main(int argc, char** argv) {
               dsched::note("call resize");
               pool.resize(n);
               dsched::note("ret resize");
+            } else if (!chain && mainA.rng.below(8) == 0) {
+              // cancel the shared set: sets created with ParentCascadeCancel::kOn inside its tasks are cancelled too
+              dsched::note("call cancel %d", sharedId);
+              book.everCancelled[sharedId] = 1;
+              shared.cancel();
+              book.cancelRet[sharedId] = 1;
+              dsched::note("ret cancel %d", sharedId);
             } else {
               runOps(mainA, 1, 1);
             }
@@ -447,14 +577,14 @@ int main(int argc, char** argv) {
       if (s == 0) {
         ++direct;
         if (book.ran[id] != 1)
-          std::printf("PFAIL task handed to the pool did not run exactly once by the end of ~ThreadPool | %s id=%d ran=%d\n", desc.c_str(), id, book.ran[id]);
+          std::printf("PFAIL task handed to the pool did not run exactly once by the end of ~ThreadPool | %s id=%d ran=%d\n", desc.c_str(), id, (int)book.ran[id]);
       } else if (s > 0) {
         ++setTasks;
         if (book.ran[id] > 1)
-          std::printf("PFAIL task-set task ran more than once | %s id=%d set=%d ran=%d\n", desc.c_str(), id, s, book.ran[id]);
+          std::printf("PFAIL task-set task ran more than once | %s id=%d set=%d ran=%d\n", desc.c_str(), id, s, (int)book.ran[id]);
         if (book.ran[id] == 0) {
           ++skipped;
-          if (!book.everCancelled[s] && !book.excThrown[s])
+          if (!mayBeCancelled(s))
             std::printf("PFAIL task of a never-cancelled task set did not run | %s id=%d set=%d\n", desc.c_str(), id, s);
         }
         if (book.ran[id] && book.subAfterCancelRet[id])
@@ -465,11 +595,11 @@ int main(int argc, char** argv) {
     }
     for (int s = 1; s <= g_numSets; ++s) {
       if (book.excSeen[s] > book.excThrown[s])
-        std::printf("PFAIL more exceptions delivered than thrown | %s set=%d seen=%d thrown=%d\n", desc.c_str(), s, book.excSeen[s], book.excThrown[s]);
+        std::printf("PFAIL more exceptions delivered than thrown | %s set=%d seen=%d thrown=%d\n", desc.c_str(), s, (int)book.excSeen[s], (int)book.excThrown[s]);
       if (book.excSeen[s] > book.captures[s])
-        std::printf("PFAIL more exceptions delivered than captured | %s set=%d seen=%d captured=%d\n", desc.c_str(), s, book.excSeen[s], book.captures[s]);
+        std::printf("PFAIL more exceptions delivered than captured | %s set=%d seen=%d captured=%d\n", desc.c_str(), s, (int)book.excSeen[s], (int)book.captures[s]);
       if (book.captures[s] > 0 && book.excSeen[s] == 0)
-        std::printf("PFAIL captured exception never delivered by wait | %s set=%d captured=%d\n", desc.c_str(), s, book.captures[s]);
+        std::printf("PFAIL captured exception never delivered by wait | %s set=%d captured=%d\n", desc.c_str(), s, (int)book.captures[s]);
     }
     if (workAtQuiescence != 0 && !stranded)
       std::printf("PFAIL pool pending-work counter not zero at quiescence | %s workRemaining=%ld\n", desc.c_str(), workAtQuiescence);
